@@ -14,14 +14,14 @@ BUDGET = {"quick": 60, "thorough": 900}
 MIN_BUDGET = {"quick": 20, "thorough": 60}
 RULE = ("tables with 2-4 retained snapshots, aged orphans, one open transaction and (usually) a writer that died "
         "mid-commit (so in-flight data files, manifests, a manifest list and their fresh markers exist); one "
-        "collection with grace 0 executed once fault-free to enumerate its storage calls, then re-executed from a "
+        "collection with grace 0 or 1 h (then with a just-written, marker-less staged file that only its age protects) executed once fault-free to enumerate its storage calls, then re-executed from a "
         "restored copy with one untrusted input: (a) an exception at storage call k (local OSError; S3 transient "
         "burst beyond the retry budget, or permanent AccessDenied), (b) one reachable metadata-plane file (current "
         "metadata file, each manifest list, each manifest) made missing / truncated / replaced by noise, each "
         "checked unparseable by the independent reader first, (c) a listing that returns an escaping path at the "
         "start / middle / end, (d) a marker that is unreadable / un-stat-able / undeletable (subsumed by (a) on "
         "marker calls). quick samples, thorough sweeps every k and every file. One evaluation = one (table, fault). "
-        "Oracle: no reachable or marker-protected file is ever deleted; if the collection raises, it performs no "
+        "Oracle: no reachable or marker-protected file, and no file younger than the grace period, is ever deleted; if the collection raises, it performs no "
         "delete after the untrusted input was delivered; if it returns normally every protection was kept. "
         "Non-trivial = the fault fired / the damaged file was read by the collector.")
 ASSUMPTIONS = common.BASE_ASSUMPTIONS + [
@@ -52,7 +52,8 @@ def gen(rng: random.Random, tier: str, idx: int) -> dict:
         exc, burst = rng.choice([("InternalError", 7), ("AccessDenied", 1), ("EndpointConnectionError", 7)])
     return {"backend": backend, "setup": setup, "mode": mode, "exc": exc, "burst": burst,
             "dead_writer": rng.random() < 0.8, "dead_at": rng.choice(["META", "HINT"]),
-            "open_tx": rng.random() < 0.7, "points": None, "sample": 8 if tier == "quick" else None,
+            "open_tx": rng.random() < 0.7, "grace_ms": rng.choice([0, 0, 3600000]), "staged_young": rng.random() < 0.7,
+            "points": None, "sample": 8 if tier == "quick" else None,
             "k_seed": rng.randrange(1 << 30)}
 
 
@@ -98,7 +99,11 @@ def _gc_phase(plan, scratch, seed, snap, faults):
     ops = []
     if plan.get("open_tx"):
         ops.append({"kind": "tx_open", "id": 0, "tag": "otx", "n": 1})
-    ops += [{"kind": "sleep", "dt": 7200.0}, {"kind": "gc", "grace_ms": 0}]
+    ops += [{"kind": "sleep", "dt": 7200.0}]
+    if plan.get("staged_young"):
+        # a pre-built file staged for a later append_files: unreachable, no marker, protected only by its age
+        ops.append({"kind": "stage_file", "name": "staged_young.parquet"})
+    ops.append({"kind": "gc", "grace_ms": plan.get("grace_ms", 0)})
     ph.actor("pgc", "gc", ops)
     return ph
 
@@ -270,6 +275,12 @@ def _one(plan, scratch, seed, snap, truth, pt, cfg, ref_deleted, gsteps) -> dict
         what = world.seams.classify_rel(sorted(hit)[0])
         bad("F.deleted_protected", f"collection ({grec['outcome']}{'/' + str(grec.get('exc')) if grec.get('exc') else ''}) deleted "
                                    f"reachable / in-flight-protected file(s) {sorted(hit)[:2]}", f"|{what}")
+    # the grace period is a protection too: a candidate younger than the grace period must survive, also (especially)
+    # when its age could not be determined
+    if plan.get("grace_ms", 0) > 0 and plan.get("staged_young"):
+        if "data/staged_young.parquet" in deleted:
+            bad("F.deleted_young", f"collection ({grec['outcome']}) with grace {plan['grace_ms']} ms deleted data/staged_young.parquet, "
+                                   f"written moments before the collection (its age was unknown or ignored)")
     # instant the untrusted input was delivered
     delivered = None
     fired = bool(sim.fired_log)
